@@ -54,6 +54,8 @@ def batch(args):
             ind = Individual(ec.sym_vector(ctx, 'd%d' % i, prob))
             st = States[ctx.choice('state%d' % i, 4)]
             ind.state = st
+            if args.get('precision') is not None:
+                ind.features['precision'] = args['precision']       # "rounded to the STORED precision"
             if st == Individual.State.EVALUATED:
                 ind.costs = [ctx.real('old%d_%d' % (i, k)) for k in range(o)]
                 ind.costs_signed = [ctx.real('olds%d_%d' % (i, k)) for k in range(o)] + [True]
@@ -217,6 +219,13 @@ def configs(tier):
                             'args': {'dim': dim, 'criteria': crit, 'ncon': ncon, 'b': b},
                             'weight': 4 ** b * (1 + ncon) ** b, 'split': 32 if b >= 3 else None,
                             'engine': {'validate': 30}})
+    for prec in ((0, 2) if tier == 'quick' else (0, 1, 2, 3, 12)):
+        for ci in ((1, 3) if tier == 'quick' else (0, 1, 2, 3)):
+            if ci >= len(CRITS):
+                continue
+            out.append({'name': 'batch-b2-dim1-crit%d-con0-stored-precision%d' % (ci, prec), 'task': 'batch',
+                        'args': {'dim': 1, 'criteria': CRITS[ci], 'ncon': 0, 'b': 2, 'precision': prec},
+                        'weight': 16, 'engine': {'validate': 30}})
     nv = 3 if tier == 'quick' else 4
     out.append({'name': 'sweep-%d' % nv, 'task': 'sweep', 'args': {'dim': 2, 'nvec': nv, 'criteria': ('minimize', 'maximize')},
                 'weight': 5})
